@@ -13,6 +13,7 @@ PROPS = {"C10": dict(
         "Zrnt.Proofs.C10.prune_without_sink_false",
         "Zrnt.Proofs.C10.post_prune_ops_total_false",
         "Zrnt.Proofs.C10.no_panic_unpruned_partial",
+        "Zrnt.Proofs.C10.updates_refine_partial",
     ],
     modes=[dict(name="fc10", stateful=True, max_shrinks=4,
                 nontrivial=_nontrivial(("justify", "nodes", "head", "just", "fin", "pinq", "block", "att", "slot")))],
